@@ -129,7 +129,7 @@ pub fn run() -> Report {
                 }
                 cb.blocks.push(b);
             }
-            let world = World::simple(cn, &cb.blocks, 0);
+            let world = World::laid_out(cn, &cb.blocks, 0, i);
             let start = if genesis(cn).is_none() { Some(1) } else { None };
             let spec = RunSpec::new(c.coin, "csvdump").verify(true).range(start, None);
             let r = match wk.world_run(&world, &spec) {
